@@ -124,6 +124,8 @@ func (h *Sources) Add(name string, hist Source) {
 
 	if _, found := h.list[name]; !found {
 		h.names = append(h.names, name)
+	} else {
+		delete(h.lines, name)
 	}
 
 	h.list[name] = hist
@@ -145,6 +147,7 @@ func (h *Sources) Delete(sources ...string) {
 	if len(sources) == 0 {
 		h.list = make(map[string]Source)
 		h.names = make([]string, 0)
+		h.lines = make(map[string]map[int]*lineHistory)
 		h.sourcePos = 0
 
 		if !h.infer {
@@ -156,6 +159,7 @@ func (h *Sources) Delete(sources ...string) {
 
 	for _, name := range sources {
 		delete(h.list, name)
+		delete(h.lines, name)
 
 		for i, hname := range h.names {
 			if hname == name {
